@@ -267,7 +267,7 @@ async fn handle(resolver: Resolver, sid: u64, e: Ending, p: Probe, second_drop: 
     }
 }
 
-async fn server(net: sim::Net, p: Probe, sp: Spawner, endings: Arc<BTreeMap<u64, Ending>>, second_drop: Arc<BTreeMap<u64, Signal>>) {
+async fn server(net: sim::Net, p: Probe, sp: Spawner, endings: Arc<BTreeMap<u64, Ending>>, second_drop: Arc<BTreeMap<u64, Signal>>, poll_variant: bool) {
     let r = p
         .call("s:conn", "build", h3::server::builder().build::<_, Bytes>(SimConn::<Bytes>::new(&net, SERVER)), |r| match r {
             Ok(_) => Out::Ok,
@@ -276,13 +276,27 @@ async fn server(net: sim::Net, p: Probe, sp: Spawner, endings: Arc<BTreeMap<u64,
         .await;
     let Ok(mut conn) = r else { return };
     loop {
-        let r = p
-            .call("s:conn", "accept", conn.accept(), |r| match r {
+        // two public ways of accepting: `accept()`, or `poll_accept_request_stream` +
+        // `create_resolver` (what h3-webtransport's session loop uses)
+        let r = if poll_variant {
+            let acc = async {
+                let s = std::future::poll_fn(|cx| conn.poll_accept_request_stream(cx)).await?;
+                Ok::<_, h3::error::ConnectionError>(s.map(|s| conn.create_resolver(h3::frame::FrameStream::new(h3::stream::BufRecvStream::new(s)))))
+            };
+            p.call("s:conn", "accept", acc, |r| match r {
                 Ok(Some(res)) => Out::Accepted(res.frame_stream.id().into_inner()),
                 Ok(None) => Out::None,
                 Err(e) => Out::ConnErr(ConnErr::from_h3(e)),
             })
-            .await;
+            .await
+        } else {
+            p.call("s:conn", "accept", conn.accept(), |r| match r {
+                Ok(Some(res)) => Out::Accepted(res.frame_stream.id().into_inner()),
+                Ok(None) => Out::None,
+                Err(e) => Out::ConnErr(ConnErr::from_h3(e)),
+            })
+            .await
+        };
         match r {
             Ok(Some(resolver)) => {
                 let sid = resolver.frame_stream.id().into_inner();
@@ -359,7 +373,9 @@ fn check_history(endings: &[Ending], goaway_pos: usize, seed: u64, rep: &mut Rep
         }
         sched.add_script(steps);
     }
-    sched.spawn("s:conn", server(net.clone(), probe.clone(), sched.spawner.clone(), emap, sigs.clone()));
+    let poll_variant = rng.chance(1, 3);
+    rep.count(if poll_variant { "accept_api[poll_accept_request_stream + create_resolver]" } else { "accept_api[accept()]" });
+    sched.spawn("s:conn", server(net.clone(), probe.clone(), sched.spawner.clone(), emap, sigs.clone(), poll_variant));
     let end = sched.run(1_000_000);
     rep.sig(hash64(&(endings, goaway_pos, sched.sig)));
     rep.sig_in("interleaving_signatures", sched.sig);
